@@ -76,6 +76,28 @@ def run(tier, seed):
                                                                  {"name": "trump", "type": ["null", q + "Suit"]}]}
         u = [suit, card] + ([hand] if r.random() < 0.6 else []) + r.sample(["null", "string", "long"], r.randint(0, 2))
         cases.append((gen.Gen(seed + 2), u, gen.Ctx()))
+    # directed: containers of INLINE named types with non-empty defaults (an edit confined to the default must not matter),
+    # and enums without symbols at several positions
+    for items_kind, item_t, dflt_item in (("enum", {"type": "enum", "name": "ns.Level", "symbols": ["LOW", "HIGH"]}, "LOW"),
+                                          ("fixed", {"type": "fixed", "name": "ns.Key", "size": 2}, "ab"),
+                                          ("record", {"type": "record", "name": "ns.Pt", "fields": [{"name": "x", "type": "int"}]}, {"x": 1})):
+        for cont in ("array", "map"):
+            for dflt in ("absent", "empty", "one", "two"):
+                t = {"type": "array", "items": item_t} if cont == "array" else {"type": "map", "values": item_t}
+                fld = {"name": "c", "type": t}
+                n_ = {"absent": None, "empty": 0, "one": 1, "two": 2}[dflt]
+                if n_ is not None:
+                    fld["default"] = [dflt_item] * n_ if cont == "array" else {"k%d" % j: dflt_item for j in range(n_)}
+                sch = {"type": "record", "name": "ns.Holder", "fields": [{"name": "id", "type": "long"}, fld,
+                                                                        {"name": "again", "type": ["null", item_t["name"]], "default": None}]}
+                cases.append((gen.Gen(seed + 3), sch, gen.Ctx()))
+    empty_enum = {"type": "enum", "name": "ns.Nothing", "symbols": []}
+    for sch in (empty_enum,
+                {"type": "record", "name": "ns.R", "fields": [{"name": "e", "type": ["null", empty_enum], "default": None}, {"name": "n", "type": "int"}]},
+                {"type": "record", "name": "ns.R", "fields": [{"name": "es", "type": {"type": "array", "items": empty_enum}, "default": []}]},
+                {"type": "map", "values": empty_enum},
+                ["null", empty_enum, {"type": "enum", "name": "ns.One", "symbols": ["ONLY"]}]):
+        cases.append((gen.Gen(seed + 4), sch, gen.Ctx()))
     reqs = [{"op": "spec.canon", "schema": to_wire(s)} for (g, s, ctx) in cases]
     reqs2 = [{"op": "parse", "schema": to_wire(s)} for (g, s, ctx) in cases]
     spec = run_batch(reqs)
